@@ -20,6 +20,16 @@ pub mod stdx {
       Condvar, Mutex, MutexGuard, RwLock, RwLockReadGuard, RwLockWriteGuard, WaitTimeoutResult,
     };
     pub use std::sync::*;
+    pub use crate::facade::atomic;
+    pub use crate::facade::mpsc;
+  }
+
+  pub mod hint {
+    pub use std::hint::*;
+    /// a spin-wait hint gives the other threads a turn (see `thread::yield_now`)
+    pub fn spin_loop() {
+      crate::facade::yield_now()
+    }
   }
 
   pub mod thread {
